@@ -12,6 +12,7 @@ import (
 	"encoding/json"
 	"flag"
 	"fmt"
+	"hash/fnv"
 	"io"
 	"os"
 	"os/exec"
@@ -60,10 +61,19 @@ func main() {
 			d.seed = v
 		} else if v, err := strconv.ParseInt(s, 10, 64); err == nil {
 			d.seed = uint64(v)
+		} else {
+			// not a number: any string is a seed
+			h := fnv.New64a()
+			h.Write([]byte(s))
+			d.seed = h.Sum64()
 		}
 	}
 	if *replay != "" {
-		os.Exit(d.replayFile(*replay))
+		code := d.replayFile(*replay)
+		if d.bdir != "" {
+			os.RemoveAll(d.bdir)
+		}
+		os.Exit(code)
 	}
 	d.p = core.Registry[d.prop]
 	d.cfg = cfgs[d.prop]
@@ -84,7 +94,11 @@ func main() {
 	if *budget > 0 {
 		d.budget = time.Duration(*budget) * time.Second
 	}
-	os.Exit(d.check())
+	code := d.check()
+	if d.bdir != "" {
+		os.RemoveAll(d.bdir)
+	}
+	os.Exit(code)
 }
 
 func envOr(k, def string) string {
@@ -138,7 +152,9 @@ func goBin() string {
 // build produces the worker binaries this property uses, from the current
 // working tree of the repository.
 func (d *driver) build() error {
-	d.bdir = filepath.Join(d.root, ".build", d.prop)
+	// one build directory per driver process: two checks of the same property may run at once
+	d.bdir = filepath.Join(d.root, ".build", d.prop+"."+strconv.Itoa(os.Getpid()))
+	d.sweepStale()
 	os.MkdirAll(d.bdir, 0o755)
 	d.bins = map[string]string{}
 	sim := filepath.Join(d.root, "sim")
@@ -206,6 +222,28 @@ func (d *driver) build() error {
 		d.bins[b] = out
 	}
 	return nil
+}
+
+// sweepStale removes build directories left behind by driver processes that
+// no longer exist (killed by a timeout, say).
+func (d *driver) sweepStale() {
+	ents, _ := os.ReadDir(filepath.Join(d.root, ".build"))
+	for _, e := range ents {
+		if !e.IsDir() {
+			continue
+		}
+		i := strings.LastIndexByte(e.Name(), '.')
+		if i < 0 {
+			continue
+		}
+		pid, err := strconv.Atoi(e.Name()[i+1:])
+		if err != nil || cfgs[e.Name()[:i]] == nil {
+			continue
+		}
+		if _, err := os.Stat("/proc/" + strconv.Itoa(pid)); err != nil {
+			os.RemoveAll(filepath.Join(d.root, ".build", e.Name()))
+		}
+	}
 }
 
 // instrument copies the repository's working tree to a scratch directory and
